@@ -146,6 +146,8 @@ pub struct Inner {
     pub drivers: Vec<Option<Arc<dyn SinkDriver>>>,
     /// per subscription tag: how many of its own steps / sends are on the stack right now
     pub busy: Vec<u32>,
+    /// puppet drivers by id (for sink-triggered pushes)
+    pub pup_drivers: Vec<Option<Arc<dyn PupDriver>>>,
 }
 
 pub struct World {
@@ -171,6 +173,7 @@ impl World {
                 tap_subs: vec![0; 256],
                 drivers: vec![],
                 busy: vec![0; 8],
+                pup_drivers: vec![],
             }),
         })
     }
@@ -247,6 +250,7 @@ impl World {
         let mut g = self.lock();
         g.errs.clear();
         g.drivers.clear();
+        g.pup_drivers.clear();
         g.stack = vec![];
         History {
             log: std::mem::take(&mut g.log),
@@ -573,6 +577,39 @@ impl<T: ToVal + Send + Sync + 'static> Probe<T> {
                     React::PullError => {
                         me.do_send(sub, SendKind::Pull, true);
                         me.do_send(sub, SendKind::Error, true);
+                    }
+                    React::Poke(k) => {
+                        // a push from upstream nested in this delivery: the latest live instance of that
+                        // puppet belonging to this probe's own subscription emits its next item now
+                        let target = {
+                            let mut g = me.world.lock();
+                            let n = g.pup_drivers.len();
+                            if n == 0 {
+                                None
+                            } else {
+                                let p = k as usize % n;
+                                let inst = g.pups[p]
+                                    .iter()
+                                    .enumerate()
+                                    .rev()
+                                    .find(|(_, st)| st.owner == me.id && st.live())
+                                    .map(|(i, _)| i);
+                                match (inst, g.pup_drivers[p].clone()) {
+                                    (Some(i), Some(d)) => {
+                                        let prev = std::mem::replace(&mut g.cur_tag, me.id);
+                                        Some((i, d, prev))
+                                    }
+                                    _ => {
+                                        g.skipped_by_guard += 1;
+                                        None
+                                    }
+                                }
+                            }
+                        };
+                        if let Some((i, d, prev)) = target {
+                            d.act(i, PAct::Emit);
+                            me.world.lock().cur_tag = prev;
+                        }
                     }
                     React::PullOther => {
                         // only while the other subscription is idle (nothing of its own on the stack), so
@@ -1046,6 +1083,7 @@ pub fn run(sc: &Scenario) -> History {
         })
         .collect();
 
+    world.lock().pup_drivers = built.pups.clone();
     {
         let mut g = world.lock();
         g.drivers = probes
